@@ -243,6 +243,11 @@ func (fr *Frame) applyContract(st *State, fc *FuncContract, key string, callee *
 	if fc.Extern || fc.Trusted {
 		vc.assumptions["assumed contract: "+key] = true
 	}
+	view := ""
+	if tv := fr.top().view; tv != "" && fc.hasView(tv) {
+		view = tv
+		vc.assumptions["abstract ("+tv+") view of "+key+" assumed at call sites (trusted abstraction of its verified byte-level contract)"] = true
+	}
 	pnames, rnames := fr.contractNames(fc, callee, sig)
 	vars := map[string]Val{}
 	for i, a := range args {
@@ -259,7 +264,7 @@ func (fr *Frame) applyContract(st *State, fc *FuncContract, key string, callee *
 			fr.safety("call:"+shortKey(key)+"/recv-nonnil", cond, "(not (= "+args[0].C[0]+" 0))", pos, "receiver must not be nil")
 		}
 	}
-	for _, c := range fc.Requires {
+	for _, c := range clausesFor(fc.Requires, view) {
 		t, err := env.EvalBool(c.E)
 		if err != nil {
 			fr.specError(c, err)
@@ -271,7 +276,7 @@ func (fr *Frame) applyContract(st *State, fc *FuncContract, key string, callee *
 		vc.oblige("pre", top.oblFn, fr.oblName("call:"+shortKey(key)+"/requires"), cond, t, fr.pos(pos), c.Text)
 	}
 	pre := st.Clone()
-	fr.applyModifies(st, fc, env)
+	fr.applyModifies(st, fc, env, view)
 	if !fc.Pure {
 		t0 := vc.top(pre)
 		t1 := vc.fresh("top", "Int")
@@ -293,7 +298,7 @@ func (fr *Frame) applyContract(st *State, fc *FuncContract, key string, callee *
 	}
 	bindResults(pvars, rnames, results)
 	penv := &Env{vc: vc, st: st, old: pre, vars: pvars, pkg: pkg}
-	for _, c := range fc.Ensures {
+	for _, c := range clausesFor(fc.Ensures, view) {
 		t, err := penv.EvalBool(c.E)
 		if err != nil {
 			fr.specError(c, err)
@@ -309,7 +314,7 @@ func shortKey(key string) string {
 }
 
 // applyModifies havocs the locations named in the callee's modifies clause.
-func (fr *Frame) applyModifies(st *State, fc *FuncContract, env *Env) {
+func (fr *Frame) applyModifies(st *State, fc *FuncContract, env *Env, view string) {
 	vc := fr.vc
 	if fc.ModAll {
 		for k, srt := range vc.heapSorts {
@@ -320,7 +325,7 @@ func (fr *Frame) applyModifies(st *State, fc *FuncContract, env *Env) {
 		}
 		return
 	}
-	for _, m := range fc.Modifies {
+	for _, m := range fc.modifiesFor(view) {
 		if err := fr.havocTarget(st, m, env); err != nil {
 			vc.prog.specErrors = append(vc.prog.specErrors, fmt.Sprintf("%s:%d: modifies %s: %v", fc.File, fc.Line, m.String(), err))
 		}
@@ -520,6 +525,9 @@ func (fr *Frame) afterWait(st *State) {}
 func (fr *Frame) intrinsic(st *State, callee *ssa.Function, key string, args []Val, pos token.Pos) ([]Val, bool) {
 	vc := fr.vc
 	name := callee.Name()
+	if k := strings.Index(name, "["); k > 0 {
+		name = name[:k] // instantiated generic
+	}
 	top := fr.top()
 	switch name {
 	case "vassert":
@@ -530,6 +538,10 @@ func (fr *Frame) intrinsic(st *State, callee *ssa.Function, key string, args []V
 	case "vstreq":
 		if callee.Signature.Recv() == nil && len(args) == 2 {
 			return []Val{{T: types.Typ[types.Bool], C: []string{vc.strEqExt(args[0].C[0], args[1].C[0])}}}, true
+		}
+	case "vsliceeq":
+		if len(args) == 2 {
+			return []Val{{T: types.Typ[types.Bool], C: []string{fr.sliceEqExt(st, args[0], args[1])}}}, true
 		}
 	case "vassume":
 		if callee.Signature.Recv() == nil && len(args) == 1 {
@@ -934,7 +946,11 @@ func (fr *Frame) callWrites(w *writeSet, c *ssa.CallCommon, seen map[*ssa.Functi
 			}
 		}
 		pkg := vc.prog.typesPkgByName(fc.Pkg)
-		for _, m := range fc.Modifies {
+		mview := ""
+		if tv := fr.top().view; tv != "" && fc.hasView(tv) {
+			mview = tv
+		}
+		for _, m := range fc.modifiesFor(mview) {
 			if !fr.staticModKeys(w, m, ptypes, pkg) {
 				w.all = true
 			}
@@ -1087,3 +1103,17 @@ func (fr *Frame) staticModKeys(w *writeSet, m Expr, ptypes map[string]types.Type
 
 func (fr *Frame) havocAllMark(st *State)              {}
 func (fr *Frame) pendingHavoc(st *State, pfx string) {}
+
+// sliceEqExt: same length and same elements (extensional equality of two slices).
+func (fr *Frame) sliceEqExt(st *State, a, b Val) string {
+	vc := fr.vc
+	sl := a.T.Underlying().(*types.Slice)
+	i := vc.idxSort()
+	ea := vc.readElem(st, sl.Elem(), a.C[0], vc.iadd(a.C[1], "k"))
+	eb := vc.readElem(st, sl.Elem(), b.C[0], vc.iadd(b.C[1], "k"))
+	var eqs []string
+	for ci := range ea.C {
+		eqs = append(eqs, "(= "+ea.C[ci]+" "+eb.C[ci]+")")
+	}
+	return "(and (= " + a.C[2] + " " + b.C[2] + ") (forall ((k " + i + ")) (=> (and " + vc.ile(vc.idx(0), "k") + " " + vc.ilt("k", a.C[2]) + ") " + andAll(eqs...) + ")))"
+}
